@@ -95,10 +95,14 @@ n("C04-n1", "C04", OS_, "        except BaseException:\n            abort()\n   
 
 # ------------------------------------------------------------------ C05
 b("C05-b1", "C05", SERVER, "            if sha_result not in values:\n                raise GitProtocolError(f\"Client wants invalid object {sha_result!r}\")\n", "", "R05.1")
-b("C05-b2", "C05", OS_, "            entries, ext_refs = self._index_pack(\n                indexer, len(copier), progress=progress\n            )\n            return self._complete_pack(f, path, entries, ext_refs, progress=progress)\n",
-  "            entries, ext_refs = self._index_pack(\n                indexer, len(copier), progress=progress\n            )\n            return self._complete_pack(f, path, entries, set(), progress=progress)\n", "R05.2")
+b("C05-b2", "C05", OS_, "                return self._complete_pack(\n                    f, path, entries, ext_refs, progress=progress\n                )\n",
+  "                return self._complete_pack(\n                    f, path, entries, set(), progress=progress\n                )\n", "R05.2")
 n("C05-n1", "C05", SERVER, "        values = set(heads.values())\n", "        values = set(heads.values())\n        logger.debug(\"advertising %d values\", len(values))\n")
 
+b("C05-b4", "C05", SERVER, "        if not self.has_capability(CAPABILITY_INCLUDE_TAG):\n            return {}\n        if refs is None:\n",
+  "        if refs is None:\n", "R05.5")
+b("C05-b5", "C05", OS_, "        if sha in self._tagged:\n            self.add_todo([(self._tagged[sha], None, None, True)])\n",
+  "        for tag_sha in self._tagged.values():\n            self.add_todo([(tag_sha, None, None, True)])\n", "R05.5")
 # ------------------------------------------------------------------ C06
 b("C06-b1", "C06", SERVER, "                            elif not self.repo.refs.set_if_equals(ref, oldsha, sha):\n                                ref_status = b\"failed to update ref\"\n                        except all_exceptions:\n                            ref_status = b\"failed to write\"\n                except KeyError:\n                    ref_status = b\"bad ref\"\n                yield (ref, ref_status)\n\n    def _report_status",
   "                            else:\n                                self.repo.refs.set_if_equals(ref, oldsha, sha)\n                        except all_exceptions:\n                            ref_status = b\"failed to write\"\n                except KeyError:\n                    ref_status = b\"bad ref\"\n                yield (ref, ref_status)\n\n    def _report_status", "R06.1")
